@@ -812,6 +812,8 @@ def judge(I, st, plan, failures, model_of):
         return
     for tag, what in m["viol"]:
         fail(tag, what)
+        if "sources hash given to a rule" in what:
+            failures[-1]["also"] = ["C02"]      # an unstable sources hash shows as an unnecessary execution on some history
     n, nl = len(plan.nodes), plan.nleaves
     nfailed = 0
     for j in range(nl):
@@ -1031,7 +1033,7 @@ def run(tier):
         return failures, ["MIR dump failed: " + err[-400:]], stats, samples, mir_s, time.time() - t0
     mir_path = os.path.join(WORK, "mir_dump.txt")
     nplans = len(plans_for(tier))
-    tasks = [(mir_path, i, tier, 240 if tier == "quick" else 900) for i in range(nplans)]
+    tasks = [(mir_path, i, tier, 900 if tier == "quick" else 1800) for i in range(nplans)]
     with multiprocessing.Pool(int(os.environ.get("VERIF_JOBS_M", "14"))) as pool:
         for r in pool.imap_unordered(_worker, tasks):
             for k in ("queries", "solver_s", "forks", "paths", "plans"):
@@ -1101,7 +1103,8 @@ def explore_cached(tier):
     stats["native_disagreements"] = nat_bad[:5]
     wall += time.time() - t1
     c = {"digest": dig, "failures": failures, "inconclusive": inconclusive, "stats": stats, "samples": samples, "mir_s": mir_s, "wall": wall, "cached": False}
-    json.dump(c, open(cache, "w"), indent=1)
+    if not inconclusive and not nat_bad:        # (a run cut short by a budget, or one that disagrees with the native runs, is never reused)
+        json.dump(c, open(cache, "w"), indent=1)
     return c
 
 
@@ -1135,6 +1138,32 @@ def pad(plan):
     return {"leaves": leaves, "rules": rules}
 
 
+def name_lines(plan):
+    """file names whose byte order reproduces the plan's order of every rule's sources and targets (the real sorter
+    orders both by name); none if the plan's orders cannot all be realised at once"""
+    ents = ["L%d" % j for j in range(len(plan["leaves"]))] + ["T%d.%d" % (k, s_) for k, r in enumerate(plan["rules"]) for s_ in range(len(r["targets"]))]
+    key = {}
+    for j, n_ in enumerate(plan["leaves"]):
+        key[n_] = "L%d" % j
+    for k, r in enumerate(plan["rules"]):
+        for s_, t in enumerate(r["targets"]):
+            key[t] = "T%d.%d" % (k, s_)
+    less = set()
+    for r in plan["rules"]:
+        for seq in (r["targets"], r["sources"]):
+            for a_, b_ in zip(seq, seq[1:]):
+                less.add((key[a_], key[b_]))
+    order, left = [], list(ents)
+    while left:
+        free = [e for e in left if not any((x, e) in less for x in left if x != e)]
+        if not free:
+            return []
+        order.append(free[0])
+        left.remove(free[0])
+    orig = {v: k_ for k_, v in key.items()}
+    return ["name %s n%02d_%s" % (e, i, orig[e]) for i, e in enumerate(order)]
+
+
 def case_text(f, policies, enriched=False):
     plan = pad(enrich(f["plan"]) if enriched else f["plan"])
     tindex = {}
@@ -1152,6 +1181,7 @@ def case_text(f, policies, enriched=False):
         lines.append("missing " + " ".join(str(x) for x in o["missing_leaves"]))
     if o.get("failing_rules") and f.get("program", "build") == "build":
         lines.append("failing " + " ".join(str(x) for x in o["failing_rules"]))
+    lines += name_lines(plan)
     lines.append("program " + f.get("program", "build"))
     if f["tag"] == "C09":
         lines.append("scope 1")
